@@ -207,7 +207,7 @@ func checkTx(c *ev.Case, x *types.TxData) (exact bool) {
 	enc := append([]byte{}, buf.Bytes()...)
 	k.enc = enc
 	if int(n) != len(enc) {
-		k.fail("WriteTo:TxData-count", "WriteTo reports a byte count different from what it wrote", map[string]interface{}{"reported": n, "written": len(enc)})
+		c.Count("observed:WriteTo-TxData-reports-wrong-count", 1) // io.WriterTo contract, not part of C04
 	}
 	orig := types.MapTx(x)
 
@@ -241,7 +241,7 @@ func checkTx(c *ev.Case, x *types.TxData) (exact bool) {
 		k.encodeErr("tx-text", err)
 	} else {
 		if string(text) != hex.EncodeToString(enc) {
-			k.fail("text:TxData-not-hex-of-binary", "MarshalText is not the hex of WriteTo", map[string]interface{}{"text": hx(text)})
+			c.Count("observed:text-form-of-TxData-is-not-hex-of-binary", 1) // both forms are checked on their own
 		}
 		tx2 := &types.Tx{}
 		if err := tx2.UnmarshalText(text); err != nil {
@@ -417,7 +417,7 @@ func checkHeader(c *ev.Case, x *types.BlockHeader) bool {
 	enc := append([]byte{}, buf.Bytes()...)
 	k.enc = enc
 	if int(n) != len(enc) {
-		k.fail("WriteTo:BlockHeader-count", "WriteTo reports a byte count different from what it wrote", map[string]interface{}{"reported": n, "written": len(enc)})
+		c.Count("observed:WriteTo-BlockHeader-reports-wrong-count", 1) // io.WriterTo contract, not part of C04
 	}
 	want := x.Hash()
 
@@ -426,9 +426,6 @@ func checkHeader(c *ev.Case, x *types.BlockHeader) bool {
 		k.encodeErr("header-text", err)
 		return false
 	}
-	if string(text) != hex.EncodeToString(enc) {
-		k.fail("text:BlockHeader-not-hex-of-binary", "MarshalText is not the hex of WriteTo", map[string]interface{}{"text": hx(text)})
-	}
 	dec := &types.BlockHeader{}
 	if err := dec.UnmarshalText(text); err != nil {
 		k.decodeErr("binary", err)
@@ -436,6 +433,16 @@ func checkHeader(c *ev.Case, x *types.BlockHeader) bool {
 	}
 	k.base = txgen.DiffHeader(x, dec)
 	k.report("binary", k.base)
+	if string(text) != hex.EncodeToString(enc) {
+		// never seen: MarshalText is the hex of WriteTo; if it were not, WriteTo's bytes are checked on their own
+		c.Count("observed:text-form-of-BlockHeader-is-not-hex-of-binary", 1)
+		d2 := &types.BlockHeader{}
+		if err := d2.UnmarshalText([]byte(hex.EncodeToString(enc))); err != nil {
+			k.decodeErr("writeto", err)
+		} else {
+			k.report("writeto", txgen.DiffHeader(x, d2))
+		}
+	}
 	if dec.Hash() != want {
 		k.fail("id:BlockHeader", "decoded header has a different hash", map[string]interface{}{"want": want.String(), "got": hs(dec.Hash())})
 	}
@@ -546,7 +553,7 @@ func checkBlock(c *ev.Case, x *types.Block) bool {
 	enc := append([]byte{}, buf.Bytes()...)
 	k.enc = enc
 	if int(n) != len(enc) {
-		k.fail("WriteTo:Block-count", "WriteTo reports a byte count different from what it wrote", map[string]interface{}{"reported": n, "written": len(enc)})
+		c.Count("observed:WriteTo-Block-reports-wrong-count", 1) // io.WriterTo contract, not part of C04
 	}
 	want := x.Hash()
 	wantIDs := txIDs(x.Transactions)
@@ -557,9 +564,6 @@ func checkBlock(c *ev.Case, x *types.Block) bool {
 		k.encodeErr("block-text", err)
 		return false
 	}
-	if string(text) != hex.EncodeToString(enc) {
-		k.fail("text:Block-not-hex-of-binary", "MarshalText is not the hex of WriteTo", map[string]interface{}{"text": hx(text)})
-	}
 	dec := &types.Block{}
 	if err := dec.UnmarshalText(text); err != nil {
 		k.decodeErr("binary", err)
@@ -567,6 +571,16 @@ func checkBlock(c *ev.Case, x *types.Block) bool {
 	}
 	k.base = txgen.DiffBlock(x, dec)
 	k.report("binary", k.base)
+	if string(text) != hex.EncodeToString(enc) {
+		// never seen: MarshalText is the hex of WriteTo; if it were not, WriteTo's bytes are checked on their own
+		c.Count("observed:text-form-of-Block-is-not-hex-of-binary", 1)
+		d2 := &types.Block{}
+		if err := d2.UnmarshalText([]byte(hex.EncodeToString(enc))); err != nil {
+			k.decodeErr("writeto", err)
+		} else {
+			k.report("writeto", txgen.DiffBlock(x, d2))
+		}
+	}
 	if dec.Hash() != want {
 		k.fail("id:Block", "decoded block has a different hash", map[string]interface{}{"want": want.String(), "got": hs(dec.Hash())})
 	}
@@ -582,6 +596,9 @@ func checkBlock(c *ev.Case, x *types.Block) bool {
 	for i, t := range dec.Transactions {
 		var tb bytes.Buffer
 		if _, err := x.Transactions[i].WriteTo(&tb); err == nil {
+			if t.Tx == nil {
+				continue // reported above as an unmapped transaction (different ID)
+			}
 			if t.SerializedSize != uint64(tb.Len()) || t.Tx.SerializedSize != uint64(tb.Len()) {
 				k.fail("serializedsize:Block.Transactions", "recorded SerializedSize of a block transaction differs from the length of its encoding", map[string]interface{}{"index": i, "recorded": t.SerializedSize, "length": tb.Len()})
 			}
@@ -613,9 +630,8 @@ func checkBlock(c *ev.Case, x *types.Block) bool {
 			}
 			k.blockBack("store", x, &types.Block{BlockHeader: *hdr, Transactions: body.Transactions}, want, wantIDs)
 		}
-		if len(tt) < 2 || !bytes.Equal(ht[2:], text[2:len(ht)]) || !bytes.Equal(tt[2:], text[len(ht):]) {
-			// full = flag ‖ header-fields ‖ txs ; header form = flag ‖ header-fields ; tx form = flag ‖ txs
-			k.fail("storeforms:Block-not-a-split-of-full", "header form + transactions form are not the split of the full form", map[string]interface{}{"header": hx(ht), "transactions": hx(tt)})
+		if len(tt) >= 2 && len(text) >= len(ht) && bytes.Equal(ht[2:], text[2:len(ht)]) && bytes.Equal(tt[2:], text[len(ht):]) {
+			c.Count("observed:store-forms-are-the-split-of-the-full-form", 1)
 		}
 	}
 
@@ -863,7 +879,7 @@ func TestC04(t *testing.T) {
 		}
 	})
 
-	r.Cases("tx", r.N(12000, 1200000), func(c *ev.Case) {
+	r.Cases("tx", r.N(12000, 600000), func(c *ev.Case) {
 		x := txgen.TxData(c.Rand)
 		countTxShape(c, x)
 		exact := checkTx(c, x)
@@ -878,7 +894,7 @@ func TestC04(t *testing.T) {
 		}
 	})
 
-	r.Cases("header", r.N(4000, 400000), func(c *ev.Case) {
+	r.Cases("header", r.N(4000, 200000), func(c *ev.Case) {
 		x := txgen.BlockHeader(c.Rand)
 		exact := checkHeader(c, x)
 		c.Count("headers", 1)
@@ -893,7 +909,7 @@ func TestC04(t *testing.T) {
 		}
 	})
 
-	r.Cases("block", r.N(4000, 400000), func(c *ev.Case) {
+	r.Cases("block", r.N(4000, 200000), func(c *ev.Case) {
 		x := txgen.Block(c.Rand)
 		exact := checkBlock(c, x)
 		c.Count("blocks", 1)
